@@ -3,7 +3,7 @@
    errors are fatal (an error returned from BeginBlock/EndBlock is turned into a
    panic by the multiplexer).  [Fatal] = the Go function returns an error. *)
 From Verif Require Import Lib.Base NoHalt.Model NoHalt.Proofs NoHalt.SeqProofs NoHalt.TallyProofs.
-From Verif Require Import Sched.Elect NoHalt.ElectProofs NoHalt.GovProofs.
+From Verif Require Import Sched.Elect NoHalt.ElectProofs NoHalt.GovProofs NoHalt.UpdProofs.
 
 (* disburseFeesP never fails, for any fee total and any weights that pass
    ConsensusParameters.SanityCheck (not all three zero), proposer known or not *)
@@ -334,3 +334,44 @@ Theorem governance_refund_of_current_minimum_breaks_invariant :
   exists ops st, grun_current_min ops (ginit 100) = Ok st /\ g_open st = [] /\ g_pool st <> 0.
 Proof. exact current_min_refund_breaks_invariant. Qed.
 Print Assumptions governance_refund_of_current_minimum_breaks_invariant.
+
+(* ---- validator updates handed to the consensus engine ---- *)
+
+(* stakes below one power unit (16 base units) still get voting power 1 *)
+Theorem voting_power_floor_is_one :
+  forall stake, stake < 16 -> voting_power false stake = Some 1.
+Proof. exact voting_power_small_stake. Qed.
+Print Assumptions voting_power_floor_is_one.
+
+(* every elected validator has voting power at least 1, so no entry of the new set is read
+   as a removal by the consensus engine *)
+Theorem elected_validator_power_at_least_one :
+  forall p ents epoch nodes pe pn vals vents,
+    elect_validators p ents epoch nodes pe pn = VOk vals vents ->
+    Forall (fun kv => 1 <= snd kv) (powers_of vals).
+Proof. exact elected_power_ge_1. Qed.
+Print Assumptions elected_validator_power_at_least_one.
+
+(* for every election: the update list returned by EndBlock only removes validators of the
+   current set, never empties the set, and turns the current set into exactly the elected one *)
+Theorem validator_updates_acceptable :
+  forall p ents epoch nodes pe pn vals vents cur,
+    elect_validators p ents epoch nodes pe pn = VOk vals vents ->
+    NoDup (map fst cur) -> NoDup (map fst (powers_of vals)) -> vals <> [] ->
+    let ups := diff_validators cur (powers_of vals) in
+    (forall k, In (k, 0) ups -> In k (map fst cur)) /\
+    (exists k v, aget k (apply_updates cur ups) = Some v /\ v <> 0) /\
+    (forall k, aget k (apply_updates cur ups) = aget k (powers_of vals)).
+Proof. exact election_updates_acceptable. Qed.
+Print Assumptions validator_updates_acceptable.
+
+(* applying the "zero power -> 1" floor BEFORE the linear scaling is refuted: a stake of
+   1..15 base units then gets power 0, i.e. the removal of a validator the engine does not know *)
+Theorem voting_power_floor_before_scaling_refuted :
+  (forall s, 0 < s -> s < 16 -> voting_power_floor_first s = Some 0) /\
+  exists cur pend k,
+    NoDup (map fst cur) /\ NoDup (map fst pend) /\
+    voting_power_floor_first 10 = Some (match aget k pend with Some v => v | None => 1 end) /\
+    In (k, 0) (diff_validators cur pend) /\ ~ In k (map fst cur).
+Proof. split; [exact floor_first_zero_power|exact floor_first_refuted]. Qed.
+Print Assumptions voting_power_floor_before_scaling_refuted.
